@@ -165,6 +165,10 @@ func (f *sessionFam) quiescent(w *World) {
 		reg[k] = true
 	}
 	for k := range live {
+		// a session whose state is closed has closed, whether or not the application was told (that is C03's business)
+		if s := w.Socks[aliasOfSid[k]]; s != nil && s.ReadyState() == "closed" {
+			continue
+		}
 		if !reg[k] {
 			w.violate("C04", "live-session-registered", "", fmt.Sprintf("at quiescence t=%v live session %s (%s) is not in Clients()", simrt.Now(), k, aliasOfSid[k]))
 		} else if s, ok := w.Srv.Clients().Load(k); !ok || s.Id() != k {
@@ -283,6 +287,7 @@ func oracleC03(f *sessionFam, w *World) []Violation {
 		closes   []Ev
 		conn     *Ev
 		closeSeq int
+		closeT   time.Duration
 	}
 	ss := map[string]*sess{}
 	get := func(a string) *sess {
@@ -320,14 +325,19 @@ func oracleC03(f *sessionFam, w *World) []Violation {
 		case "close":
 			s.closes = append(s.closes, *e)
 			if len(s.closes) == 1 {
-				s.closeSeq = e.Seq
+				s.closeSeq, s.closeT = e.Seq, e.T
 			}
 			if readyOf(e.St) != "closed" {
 				v("closed-at-close-event", readyOf(e.St), fmt.Sprintf("%s: close event delivered with state %s", e.Sess, e.St))
 			}
 		default:
 			if sessionEv[e.Kind] && s.closeSeq > 0 && e.Seq > s.closeSeq {
-				ctx := e.Kind
+				// an event in the very instant of the close is a handler that had passed its state
+				// test when the close overtook it; an event at a later time is a different matter
+				ctx := e.Kind + "/same-instant-as-close"
+				if e.T > s.closeT {
+					ctx = e.Kind + "/later-than-close"
+				}
 				v("silence-after-close", ctx, fmt.Sprintf("%s: %s event #%d (%q) after the close event #%d", e.Sess, e.Kind, e.Seq, clip(e.S, 40), s.closeSeq))
 			}
 		}
@@ -449,7 +459,10 @@ func (f *sessionFam) armedCauses(w *World, a string, seq int) map[string]bool {
 		case "app-close", "reent-call":
 			armed["forced close"] = true
 		case "c-close", "c-close-sent":
+			// the peer closing its connection: reported as transport close, or as transport error when
+			// the carrier signals the closure as a stream reset (WebTransport session close)
 			armed["transport close"] = true
+			armed["transport error"] = true
 		case "c-gone":
 			// the client gave up (it saw an error or a close packet): the server may
 			// notice as transport close/error or, if nothing is in flight, only by ping timeout
